@@ -72,7 +72,7 @@ def requirements(tier):
     req = {"tree:histories": 60000 if tier == "quick" else 900000, "tree:insertion-checks": 300000, "tree:pair-checks": 5000000,
            "graph:histories": 10000, "graph:pair-checks": 200000, "registry:registrations": 100, "registry:probe-comparisons": 10000,
            "registry:new-frame-roundtrips": 1000, "registry:origin-checks": 30, "registry:nested-orbit-frame": 10,
-           "registry:name-differs-by-case-only": 10}
+           "registry:name-differs-by-case-only": 10, "registry:name-registered-again-under-another-parent": 5}
     return req
 
 
@@ -293,6 +293,7 @@ def case_registry(ctx, job, idx, rng, st):
 
     ctx.case({"scenario": idx, "states": [s[0] for s in states]})
     registered = []  # names of frames created so far (all reachable from the built-ins)
+    station_names = []
     ref = probe_set(pairs)
     old_pairs = list(pairs)
     n_reg = 24
@@ -372,6 +373,47 @@ def case_registry(ctx, job, idx, rng, st):
             ref.update(probe_set(extra))
             old_pairs += extra
             registered.append(name)
+            if kind == "station":
+                station_names.append(name)
+    reparent_scenario(ctx, idx, rng, states, station_names)
+
+
+def reparent_scenario(ctx, idx, rng, states, registered_stations):
+    """A station name registered AGAIN under another parent frame (the library announces "already registered.
+    Overriding"): conversions to and from the frame that now owns the name must follow ITS links.  On the pinned tree the
+    old orientation node stays linked to the old parent, and routes that reach the name through that parent end on the
+    replaced object (recorded as a known finding, recognised by exactly that: the route's last node is not the new
+    frame's orientation)."""
+    from beyond.frames.stations import create_station
+    from beyond.frames.frames import get_frame
+    from beyond.orbits import StateVector
+
+    if not registered_stations:
+        return
+    name = rng.choice(registered_stations)
+    new_parent = rng.choice(["TIRF", "PEF"])
+    w = {"scenario": idx, "name": name, "first_parent": "ITRF", "second_parent": new_parent}
+    try:
+        new = create_station(name, (rng.uniform(-80, 80), rng.uniform(-180, 180), rng.uniform(0, 3000)), parent_frame=get_frame(new_parent))
+    except Exception as exc:
+        ctx.violation("C20/registration-raises", dict(w, exc=repr(exc)), f"re-registering {name} under {new_parent} raised {exc!r}")
+        return
+    ctx.count("registry:name-registered-again-under-another-parent")
+    coord, d = states[0]
+    for other in ("EME2000", "TOD", "ITRF", new_parent):
+        sv = StateVector(coord, d, "cartesian", "EME2000").copy(frame=other)
+        try:
+            back = probe.arr(sv.copy(frame=new).copy(frame=other))
+        except Exception as exc:
+            ctx.violation("C20/new-frame-cannot-reach-existing", dict(w, other=other, exc=repr(exc)), f"{name} <-> {other}: {exc!r}")
+            continue
+        diff = float(np.linalg.norm(back[:3] - probe.arr(sv)[:3]))
+        route_end = get_frame(other).orientation.path(name)[-1]
+        stale = route_end is not new.orientation
+        key = "C20/name-re-registered-under-another-parent-routes-through-replaced-node" if stale else "C20/re-registered-name-roundtrip"
+        ctx.resid("registry:reparent-roundtrip", diff, 1e-5 + 1e-12 * float(np.linalg.norm(coord[:3])), key=key,
+                  witness=dict(w, other=other, diff=diff, route_ends_on_replaced_object=stale),
+                  msg=f"{other} -> {name} -> {other} after {name} was registered again under {new_parent}: {diff:.6g} m")
 
 
 def run_case(ctx, job, idx, rng, st):
